@@ -9,7 +9,7 @@ import tempfile
 from .common import *   # noqa: F401,F403
 from . import instr_gen as ig
 
-LEAF = ['Leaf_chart', 'Leaf_fromfile', 'Leaf_dispatch', 'Leaf_tracks']      # translated functions this property's model relies on (Tie/<name>.v)
+LEAF = ['Leaf_chart', 'Leaf_fromfile', 'Leaf_meta', 'Leaf_dispatch', 'Leaf_tracks']      # translated functions this property's model relies on (Tie/<name>.v)
 RULE = ("a base chart (Song, SyncTrack, Events (sometimes empty) and a random subset (sometimes with one part copied line for line into another section) of the 40 '<Difficulty><Instrument>' sections; every header is used as a singleton in thorough) is rendered in variants: "
         "random permutations of the sections, LF or CRLF line endings, with or without a UTF-8 byte-order mark (written to a real temporary file and read by Chart.from_filepath) or through "
         "Chart.from_file(StringIO); by-path files carry non-ASCII text (2-, 3- and 4-byte sequences) and a stream of them is damaged into invalid UTF-8 (0xFF byte, overlong form, surrogate, stray continuation, truncated sequence: ValueError on both sides); unknown sections inserted anywhere (names that merely start with a valid header such as ExpertSingleBackup, names with blanks, bodies containing header-like "
